@@ -806,6 +806,48 @@ class TIMachine(FormatMachine):
         self.rebind(s)
         return "restarted-bare"
 
+    def op_ti_downgrade(self, op):
+        """F8: rewrite the stored .treeinfo as 1.1 / 1.0 (header), 0.3 ([product] section; in a src tree the source
+        paths are stored as packages/repository) or 0.0 (pre-productmd: only the compatibility sections)."""
+        path = self.path(op)
+        d = self.durable.get(path)
+        if d is None or not d["clean"] or d["expected"] is None or d.get("legacy"):
+            return "noop"
+        ver = op.get("version", "1.0")
+        exp = copy.deepcopy(d["expected"])
+        sections, _ = inimod.parse(self.fs.get(path).decode("utf-8"))
+        secs = [(n, list(o)) for n, o in sections]
+
+        def render(ss):
+            return "".join("[%s]\n%s\n" % (n, "".join("%s = %s\n" % kv for kv in o)) for n, o in ss)
+        if ver == "0.0":
+            name = exp["release"]["name"]
+            keep = [(n, o) for n, o in secs if n == "general" or n.startswith("images-") or n in ("stage2", "checksums")]
+            if "-" in (dict(dict(secs).get("general", [])).get("variant") or "-"):
+                return "noop-dashed-main-variant"       # pre-productmd files have no dashed variant names
+            text = render(keep)
+            exp = None
+        else:
+            vt = tuple(int(x) for x in ver.split("."))
+            out = []
+            for n, o in secs:
+                if n == "header":
+                    o = [("version", ver)] + ([("type", "productmd.treeinfo")] if vt >= (1, 1) else [])
+                if vt < (1, 0):
+                    if n == "release":
+                        n = "product"
+                    if (n.startswith("variant-") or n.startswith("addon-")) and exp["tree"]["arch"] == "src":
+                        od = dict(o)
+                        if "packages" in od or "repository" in od:
+                            return "noop-src-tree-with-binary-paths"
+                        o = [(("packages" if k == "source_packages" else "repository" if k == "source_repository" else k), v) for k, v in o]
+                out.append((n, o))
+            text = render(out)
+        self.fs.put(path, text)
+        self.durable[path] = {"expected": exp, "bytes": self.fs.get(path), "clean": True, "legacy": True, "legacy_version": ver,
+                              "legacy_prop": op.get("tag", "C05"), "source": "downgrade", "kw": {}}
+        return "downgraded:" + ver
+
     # ---- C17: a pre-productmd reader given only the compatibility sections ---------------------------------------
     def op_ti_legacy_general(self, op):
         s = self.slot(op)
@@ -864,8 +906,13 @@ class TIMachine(FormatMachine):
                 CTX.probe("ti.child_variant_restarted")
         return r
 
+    def model_from_observation(self, obs):
+        return self.model_from_expected(None, obs)
+
     def model_from_expected(self, s, expected):
-        d = self.durable[self._last_restart_path]
+        d = self.durable.get(getattr(self, "_last_restart_path", None)) or {}
+        if s is None:
+            d = {}
         m = {"release": dict(expected["release"]),
              "base_product": dict(expected["base_product"]) if expected["base_product"] else dict((f, None) for f in BP_FIELDS),
              "tree": {"arch": expected["tree"]["arch"], "build_timestamp": expected["tree"]["build_timestamp"],
